@@ -82,3 +82,21 @@ func NearStrings() []string {
 		"ÄÖ-Ω", "äö-ω",
 	}
 }
+
+// HostileStrings is a menu of contents each of which some general-purpose parser rejects, or accepts with a result
+// that has absent parts (URL, e-mail address, date, number, UUID, percent escape, package URL, CPE, path, regular
+// expression, template): code that hands a field to such a parser meets the error path and the nil result here.
+func HostileStrings() []string {
+	return []string{
+		"", " ", "\t\n", "\u0000", "\u007f", "a\u0001b", "\u00e9\u2713\U0001F600", "\xff\xfe",
+		"://", "http://", "http://[", "http://[::1", "http://[::1]:namedport", "http://a b/", "http://host/%zz", "%zz", "%", "http://user:pa ss@host/", "1:2:3", ":x", "//host", "http:///path", "http://host:99999999/", "mailto:", "file://", "HTTP://EXAMPLE.COM/A#B#C", "http://example.com/ns#SPDXRef-DOCUMENT", "https://example.com/ns/",
+		"a@", "@b", "a@b@c", "<a@b", "\"a b\"@c", "A <a@b.c>, B <d@e.f>",
+		"2023-13-45T99:99:99Z", "0000-00-00T00:00:00Z", "2023-11-15", "9999-12-31T23:59:60Z", "-1", "1e999", "0x10", "NaN", "+Inf", "9223372036854775808",
+		"urn:uuid:", "urn:uuid:zz", "3e671687-395b-41f5-a30f", "urn:", "urn:x", "{3e671687-395b-41f5-a30f-a58921a69b79}",
+		"pkg:", "pkg:/", "pkg:a", "pkg:a/", "pkg:/b", "pkg:a/b@", "pkg:a/b?c", "pkg:a/%zz", "cpe:2.3:", "cpe:/", "cpe:2.3:a:b:c:d:e:f:g:h:i:j:k:l:m", "gitoid:", "gitoid:blob:sha1:",
+		"../../etc/passwd", "/", "a/../..", "C:\\x", "a\\b",
+		"(", ")", "[", "]", "{{", "}}", "{{.X}}", "$1", "\\", "*", "?", "+",
+		"%s%d%v", "%!s(MISSING)", "\"", "'", "<", ">", "&", "a,b", "a;b", "a=b", "a|b",
+		"(a AND", "AND", "a OR (b", "a WITH", "LicenseRef-", "NOASSERTION", "NONE",
+	}
+}
